@@ -62,6 +62,16 @@ def makeGrid (east north : CoordArr) (extras : List Arr2) (data : Option (List A
   if !((extras ++ dArrs).all fun a => isRect a n1.length e1.length) then Except.error Err.valueError
   pure ⟨dims, e1, n1, exNames.zip extras, dNames.zip dArrs⟩
 
+/-! Primitives the statement-by-statement translation of `grid_to_table` (Gen/Grid.lean) is written in: the xarray container seen through
+    look-ups by name. -/
+/-- `grid[name].values` for a data variable. -/
+def Dataset.varOf (ds : Dataset) (name : String) : Arr2 := ((ds.vars.find? fun p => p.1 == name).map (·.2)).getD []
+/-- `grid[name].values` for a non-index coordinate. -/
+def Dataset.extraOf (ds : Dataset) (name : String) : Arr2 := ((ds.extras.find? fun p => p.1 == name).map (·.2)).getD []
+/-- `grid.coords[name].values` for an index coordinate (dims[0] holds the northings, dims[1] the eastings). -/
+def Dataset.coordOf (ds : Dataset) (name : String) : List Rat :=
+  if name == ds.dims.1 then ds.north else if name == ds.dims.2 then ds.east else []
+
 /-- `grid_to_table`: one row per cell in row-major order; columns = (dims[0], dims[1], extras…, variables…). -/
 def gridToTable (ds : Dataset) : List (String × List Rat) :=
   let ne := ds.east.length
